@@ -1,5 +1,6 @@
 import TT.Model.Util
 import TT.Model.H1
+import TT.Model.H1Relay
 namespace TT.Driver
 open TT TT.H1
 
@@ -15,8 +16,34 @@ def crlfParser : Parser := ⟨fun b => match findCrlfCrlf b 0 with
   | some idx => .complete idx
   | none => .incomplete⟩
 
+def parseRelayEv (t : String) : Option H1Relay.Ev :=
+  match t.splitOn "." with
+  | ["u", h] => (parseHex h).map .up
+  | ["d", h] => (parseHex h).map fun b => .down b true
+  | ["df", h] => (parseHex h).map fun b => .down b false
+  | ["ce"] => some .clientEof
+  | ["re"] => some .readErr
+  | ["sg"] => some .sourceGone
+  | ["eof", "-"] => some (.relayEof [])
+  | ["eof", h] => (parseHex h).map .relayEof
+  | ["gone", "0"] => some (.relayGone false)
+  | ["gone", "1"] => some (.relayGone true)
+  | _ => none
+
+def hexOrDash (b : Bytes) : String := if b.isEmpty then "-" else toHex b
+
 def c08 (toks : List String) : String :=
   match toks with
+  | ["relay", evs] =>
+    match (evs.splitOn ";").mapM parseRelayEv with
+    | none => "bad-op"
+    | some es =>
+      let (s, r) := H1Relay.run {} es
+      let e := match r with
+        | some .graceful => "graceful"
+        | some .failed => "failed"
+        | none => "running"
+      s!"up={hexOrDash s.upload} down={hexOrDash s.written} end={e}"
   | "listen" :: chunks =>
     match chunks.mapM parseHex with
     | none => "bad-op"
